@@ -87,6 +87,31 @@ func (p *Prog) statusAmongResults(fn *ssa.Function) (int, string) {
 	return j, kind
 }
 
+// onlyForeignErrors: every error fn can return is nil or comes from outside
+// the module (classes of E3), and fn takes no context.
+func (p *Prog) onlyForeignErrors(fn *ssa.Function) bool {
+	e := p.errors()
+	rs := e.ret[fn]
+	if len(rs) == 0 {
+		return false
+	}
+	for _, q := range fn.Params {
+		if isContextType(q.Type()) {
+			return false
+		}
+	}
+	last := rs[len(rs)-1]
+	if len(last) == 0 {
+		return false
+	}
+	for s := range last {
+		if s.Class != "Foreign" && s.Class != "nil" {
+			return false
+		}
+	}
+	return true
+}
+
 func constOf(c *types.Const) int64 {
 	v, _ := constInt(ssa.NewConst(c.Val(), c.Type()))
 	return v
@@ -831,6 +856,14 @@ func mkPairC(name string, tolerant bool, doc string) *Rule {
 						ncalls++
 						ord[callee]++
 						key := fmt.Sprintf("%s ← %s #%d", fnName(fn), callee, ord[callee])
+						// a helper whose only possible errors come from the standard
+						// library (a number that does not parse): no cancellation or
+						// hard error can be lost here; what is done with its value is
+						// R-ERRFIRST's subject
+						if sc := c.Call.StaticCallee(); sc != nil && p.onlyForeignErrors(sc) {
+							out.ok(key, p.pos(c.Pos()), fnName(fn), "the callee can only return errors of the standard library: nothing non-suppressible to lose")
+							continue
+						}
 						sig := calleeSig(c)
 						var errV, stV ssa.Value
 						if sig.Results().Len() == 1 {
@@ -897,10 +930,7 @@ var ruleLaunder = &Rule{
 	Doc: "in a helper whose results do not include the status type, after a call returning a status, every exit on which 'status == failed' has not been refuted returns an error that is provably non-nil: a suppressed failure (failed, nil) must not come out looking like a success",
 	Run: func(p *Prog) *RuleOut {
 		out := newOut("R-LAUNDER")
-		entry := map[*ssa.Function]bool{}
-		for _, n := range p.A.EntryOrder {
-			entry[p.ssaOf(p.A.Entry[n])] = true
-		}
+		entry := p.entrySet()
 		nh := 0
 		for _, fn := range p.execFuncs() {
 			if p.pairKind(fn.Signature) != "" || !lastIsError(fn.Signature) || entry[fn] {
